@@ -256,6 +256,12 @@ DOC_ROWS = [
     ("mod.Class", "py:class", 1, "api.html#$", "-"),
     ("mod.Class.meth", "py:method", 1, "api.html#$", "-"),
     ("star*name", "py:function", 1, "s.html#star", "-"),
+    # locations that a URL *resolver* would not simply append to the base (a first segment that looks like a scheme, dot segments, an absolute path, a query)
+    ("cpp.vector", "cpp:class", 1, "cpp:containers.html#vector", "-"),
+    ("wiki.search", "std:label", -1, "Special:Search", "Search"),
+    ("up.one", "py:function", 1, "../other/up.html#$", "-"),
+    ("abs.path", "py:function", 1, "/rooted/page.html#$", "-"),
+    ("q.only", "std:label", -1, "?q=1#frag", "Query"),
     ("my-label", "std:label", -1, "index.html#my-label", "My Label Title"),
     ("other", "std:label", -1, "o.html#other", "Other"),
     ("index", "std:doc", -1, "index.html", "Index Doc"),
